@@ -83,6 +83,15 @@ struct AppTokenWorld : World
       Op reg;
       reg.kind = K_REG;
       p.ops = r.chance(1, 2) ? std::vector<Op>{ fill, drop, shrinkop, reg, reg } : std::vector<Op>{ fill, shrinkop, drop, reg, reg };
+      if (r.chance(1, 2)) {
+        // ... after two owners of small tokens have given theirs up: what was released below and above the new limit,
+        // in that order, and two registrations afterwards
+        Op low1, low2;
+        low1.kind = low2.kind = K_DESTROY;
+        low1.a[0] = (int64_t)r.below(100);
+        low2.a[0] = 100 + (int64_t)r.below(100);
+        p.ops = { fill, low1, low2, drop, shrinkop, reg, reg, reg };
+      }
     }
     for (int i = 0; i < n; i++) {
       Op o;
